@@ -244,7 +244,10 @@ func (ev *evalCtx) sel(e *SExpr) Val {
 	if id := e.Args[0]; id.Op == "ident" {
 		if _, ok := ev.lookupName(id.Name); !ok {
 			if g := ex.findGlobal(id.Name, e.Name); g != nil {
-				return ev.loadPtr(ex.globalAddr(g))
+				ga := ex.globalAddr(g)
+				v := ev.loadPtr(ga)
+				ex.globalFacts(ev.st, ga.T, v.T, derefType(ga.Typ))
+				return v
 			}
 			if c, ok := prelude.consts[id.Name+"_"+e.Name]; ok {
 				return ghost(id.Name+"_"+e.Name, c)
